@@ -174,6 +174,8 @@ def c02_core():
         aims="separated_by(..).count()")
     add("collect_exactly", rest_after(Sp(CollectEx2(Sp(Just(0))))), n=3,
         aims="collect_exactly::<[_;2]>: exactly two items, third left unconsumed, fewer = failure")
+    add("collect_exactly_capped", rest_after(Sp(Or(Tag(1, CollectEx2B(Sp(Just(0)), P(1))), Tag(2, Empty())))), n=3, always_accepts=True,
+        aims="repeated().at_most(hi).collect_exactly::<[_;2]>(): fails (with everything given back) when the cap is below 2")
     add("enumerate", rest_after(Sp(Enum(Sp(OneOf2(0, 1)), P(2), P(3)))), n=3, pre="t[2] <= t[3]",
         aims="enumerate(): indices 0.. in input order")
     add("foldl", rest_after(Sp(Foldl(Sp(Just(0)), Sp(Then(Just(1), Any()))))), n=4,
@@ -210,7 +212,10 @@ def c03_core():
     add("or_not", Then(OrNot(Then(Just(0), Just(1))), OrNot(Any())), aims="optional prefix")
     add("rep", Rep(Just(0), P(1), P(2)), pre="t[1] <= t[2]", aims="repetition leaves an unconsumed tail => rejected")
     add("sep", Sep(Just(0), Just(1), K(0), INF, FP(2), FP(3)), aims="separated_by + trailing garbage")
-    add("lookahead", Then(Rewind(Then(Just(0), Any())), Then(Any(), Then(Not(Just(1)), Any()))), aims="lookahead does not count as consumption")
+    add("lookahead", Then(Rewind(Then(Just(0), Any())), Then(Any(), Then(Not(Then(Just(1), Just(2))), Any()))),
+        aims="lookahead does not count as consumption (the inner parser of not() matches a prefix and then fails)")
+    add("collect_exactly_capped", Or(Tag(1, CollectEx2B(Just(0), P(1))), Tag(2, Then(Just(2), Just(3)))),
+        aims="collect_exactly over a repetition whose cap is below the array size: a failure that leaves no pending error of its own must still be reported with an error")
     add("lazy_seq", Lazy(Then(Just(0), Just(1))), aims="lazy(): accepts exactly the inputs of which g matches a prefix")
     add("lazy_choice", Lazy(Or(Then(Just(0), Just(1)), Just(2))), aims="lazy() over a choice")
     add("lazy_rep", Lazy(Rep(Just(0), P(1), K(2))), pre="t[1] <= 2", aims="lazy() over a bounded repetition")
